@@ -16,7 +16,7 @@ import (
 	"verif/wire"
 )
 
-var c12States = []string{"never-connected", "dialing", "connect-write-blocked", "connack-read-blocked", "resend-write-blocked", "online-idle", "online-writer-blocked", "holding-message", "down", "pending-reconnect", "closed-already"}
+var c12States = []string{"never-connected", "never-connected-signal-taken", "down-signal-taken", "dialing", "connect-write-blocked", "connack-read-blocked", "resend-write-blocked", "online-idle", "online-writer-blocked", "holding-message", "down", "pending-reconnect", "closed-already"}
 var c12Actions = []string{"Close", "Disconnect-nil", "Disconnect-open-quit", "Disconnect-closed-quit"}
 
 func runShutdown(c *run.Ctx, state string, actions []string, parkHook bool, pendingPubs int) {
@@ -31,7 +31,7 @@ func runShutdown(c *run.Ctx, state string, actions []string, parkHook bool, pend
 		switch {
 		case state == "dialing" && n == 1:
 			return sim.DialDecision{Gate: "state"}
-		case state == "down" && n == 1:
+		case (state == "down" || state == "down-signal-taken") && n == 1:
 			return sim.DialDecision{Err: errors.New("sim: unreachable")}
 		}
 		return sim.DialDecision{}
@@ -66,8 +66,21 @@ func runShutdown(c *run.Ctx, state string, actions []string, parkHook bool, pend
 		}
 		return sim.ReadDecision{Deliver: -1}
 	}
+	tokenParked := false
+	w.PointPlan = func(w *sim.World, point string, n int) sim.PointAction {
+		// a request holds the connection signal taken out of the write semaphore
+		if point == "lockWrite.token" && !tokenParked && strings.HasSuffix(state, "-signal-taken") {
+			tokenParked = true
+			return sim.PointAction{Park: "state"}
+		}
+		return sim.PointAction{}
+	}
 	if parkHook {
+		inner := w.PointPlan
 		w.PointPlan = func(w *sim.World, point string, n int) sim.PointAction {
+			if a := inner(w, point, n); a.Park != "" {
+				return a
+			}
 			if !parkedOnce && (point == "close.locked" || point == "disconnect.locked") {
 				parkedOnce = true
 				return sim.PointAction{Sleep: 200 * time.Microsecond}
@@ -151,11 +164,31 @@ func runShutdown(c *run.Ctx, state string, actions []string, parkHook bool, pend
 		}
 		c.Spoiled()
 	}
-	if state != "never-connected" {
+	if state != "never-connected" && state != "never-connected-signal-taken" {
 		d.StartReader()
 	}
 	switch state {
 	case "never-connected":
+	case "never-connected-signal-taken", "down-signal-taken":
+		if state == "down-signal-taken" {
+			d.GrantWhenPaused(sim.StepTimeout)
+			if !w.WaitUntil(sim.StepTimeout, func() bool { return d.ReadCount() >= 1 }) {
+				stuck("failed connect not reported")
+				return
+			}
+		}
+		switch c.Rng.Intn(3) {
+		case 0:
+			inflight = append(inflight, d.Go("Ping", func() error { return cl.Ping(nil) }))
+		case 1:
+			inflight = append(inflight, d.Go("Publish", func() error { return cl.Publish(nil, []byte("x"), "t") }))
+		default:
+			inflight = append(inflight, d.Go("Subscribe", func() error { return cl.Subscribe(nil, "f") }))
+		}
+		if !w.WaitGateWaiting("state", 1, sim.StepTimeout) {
+			stuck("the request did not reach the point where it holds the connection signal")
+			return
+		}
 	case "dialing", "connect-write-blocked", "connack-read-blocked":
 		d.GrantWhenPaused(sim.StepTimeout)
 		if !w.WaitGateWaiting("state", 1, sim.StepTimeout) {
@@ -219,7 +252,7 @@ func runShutdown(c *run.Ctx, state string, actions []string, parkHook bool, pend
 	}
 	w.Mu.Lock()
 	dialsAtAction := w.Dials
-	lastConn := w.CurConn()
+	lastConn := w.Cur()
 	w.Mu.Unlock()
 
 	// the actions, concurrently
@@ -265,7 +298,14 @@ func runShutdown(c *run.Ctx, state string, actions []string, parkHook bool, pend
 	// Close returns while others are still blocked inside connection operations.
 	// Disconnect needs the write lock: with a writer held inside Write it may
 	// wait for that write to end, so the held write gets released then.
-	promptly := w.WaitUntil(2*time.Second, allDone)
+	promptly := true
+	if strings.HasSuffix(state, "-signal-taken") {
+		// the actions may wait for the signal to come back (not for long, says the
+		// code: here the hook holds it); give them time to get there, then let go
+		time.Sleep(time.Duration(1+c.Rng.Intn(10)) * time.Millisecond)
+	} else {
+		promptly = w.WaitUntil(2*time.Second, allDone)
+	}
 	if !promptly {
 		// A Disconnect without a fired quit waits for the write lock; whoever
 		// queues behind it for connection control (Close included) waits along.
@@ -311,7 +351,7 @@ func runShutdown(c *run.Ctx, state string, actions []string, parkHook bool, pend
 	}
 
 	// the read routine reports ErrClosed, without dialling
-	if state == "never-connected" {
+	if state == "never-connected" || state == "never-connected-signal-taken" {
 		d.StartReader()
 	}
 	gotClosed := func() bool {
